@@ -1,15 +1,19 @@
 // Harness of the runner family (C13 lock discipline, C14 protocol).  Compiled into /repo's
 // working tree with `go build -overlay` as cmd/verif_runner.
 //
-//   verif_runner c13|c14|stress <seed> <budget> [stress]
+//	verif_runner c13|c14|stress <seed> <budget> [stress]
 //
 // prints one observation per line for the model driver (ocaml/runner_main.ml):
-//   TR <scenario> <tid:role,...> <event> <event> ... [DEADLOCK|HANG]    one logged schedule
-//   WN ... / RUN ...                                                    whole-node checks (node.go)
+//
+//	TR <scenario> <tid:role,...> <event> <event> ... [DEADLOCK|HANG]    one logged schedule
+//	WN ... / RUN ...                                                    whole-node checks (node.go)
+//
 // Event tokens (numbers in hex; h = 1 iff the caller owned the node lock at the call):
-//   L.t U.t  A.t.<hook|time|unm0|unm1|flag0|flag1|frame<v>|other>.h  HC.t.h  HR.t.ok  M.t.m.v.h
-//   RV.t.ok RF.t LK.t.known RE.t.ok  TI.t GW.t WK.t AC.t.a X.t.f.ok  SF.a.m.b WS.a.m OF.a.m OA.a
-//   CA  DN.t.code (1 nil, 0 the injected error, 2 another error)
+//
+//	L.t U.t  A.t.<hook|time|unm0|unm1|flag0|flag1|frame<v>|other>.h  HC.t.h  HR.t.ok  M.t.m.v.h
+//	RV.t.ok RF.t LK.t.known RE.t.ok  TI.t GW.t WK.t AC.t.a X.t.f.ok  SF.a.m.b WS.a.m OF.a.m OA.a
+//	CA  DN.t.code (1 nil, 0 the injected error, 2 another error)
+//
 // Hidden events (Apply, Tick, TickTake) are not observable at the interfaces and are inserted by
 // the model driver.
 package main
